@@ -1110,9 +1110,13 @@ func (pl *planner) rewriteNested(n ast.Node, depth int) {
 // ---------------------------------------------------------------------------
 // expansion of one call
 
+// freshN numbers generated names across packages, stages and rounds: labels are
+// function-wide, and a later round works on the output of an earlier one.
+var freshN int
+
 func (pl *planner) fresh(kind string) string {
-	pl.n++
-	return fmt.Sprintf("xpn%s%d", kind, pl.n)
+	freshN++
+	return fmt.Sprintf("xpn%s%d", kind, freshN)
 }
 
 // expand inlines a single-result helper call; repl is the expression that
@@ -1281,6 +1285,28 @@ func (pl *planner) expandMulti(c *ast.CallExpr) (pre []ast.Stmt, rs []ast.Expr, 
 	}
 	label := pl.fresh("L")
 	body := pl.clone(h.body).(*ast.BlockStmt)
+	// labels are function-wide: every copy of the body gets its own
+	{
+		ren := map[string]string{}
+		ast.Inspect(body, func(n ast.Node) bool {
+			if ls, ok := n.(*ast.LabeledStmt); ok {
+				nn := pl.fresh("L")
+				ren[ls.Label.Name] = nn
+				ls.Label = ast.NewIdent(nn)
+			}
+			return true
+		})
+		if len(ren) > 0 {
+			ast.Inspect(body, func(n ast.Node) bool {
+				if bs, ok := n.(*ast.BranchStmt); ok && bs.Label != nil {
+					if nn, ok := ren[bs.Label.Name]; ok {
+						bs.Label = ast.NewIdent(nn)
+					}
+				}
+				return true
+			})
+		}
+	}
 	// simple top-level defers run, last first, wherever the body returns
 	var deferred []ast.Stmt
 	{
